@@ -8,6 +8,7 @@ import (
 	"crypto/sha256"
 	"encoding/json"
 	"fmt"
+	"github.com/google/pprof/internal/report"
 	"github.com/google/pprof/verif/internal/sess"
 	"io"
 	"math/rand"
@@ -66,6 +67,14 @@ func runOrderLaws(c *harness.Ctx) harness.Result {
 		for i := 0; i < n; i++ {
 			ts = append(ts, tg{fmt.Sprintf("t%d", i), tieVals[r.Intn(len(tieVals))], tieVals[r.Intn(len(tieVals))]})
 		}
+		if c.Index%20 >= 10 {
+			// names that differ in letter case only (method=GET / method=get) are different tags
+			pool := []string{"get", "GET", "Get", "gEt", "put", "PUT", "Put"}
+			r.Shuffle(len(pool), func(i, j int) { pool[i], pool[j] = pool[j], pool[i] })
+			for i := range ts {
+				ts[i].name = pool[i]
+			}
+		}
 		desc = fmt.Sprintf("SortTags(flat=%v) over %v", flat, ts)
 		perms(n, func(p []int) {
 			var in []*graph.Tag
@@ -88,7 +97,7 @@ func runOrderLaws(c *harness.Ctx) harness.Result {
 		var ns []nd
 		seen := map[graph.NodeInfo]bool{}
 		for len(ns) < n {
-			info := graph.NodeInfo{Name: []string{"f", "g", "f", ""}[r.Intn(4)], Address: uint64(r.Intn(3)), File: []string{"x", "y", ""}[r.Intn(3)], StartLine: r.Intn(2), Lineno: r.Intn(2), Objfile: []string{"", "o"}[r.Intn(2)]}
+			info := graph.NodeInfo{Name: []string{"f", "g", "f", "", "F"}[r.Intn(5)], Address: uint64(r.Intn(3)), File: []string{"x", "y", ""}[r.Intn(3)], StartLine: r.Intn(2), Lineno: r.Intn(2), Objfile: []string{"", "o"}[r.Intn(2)]}
 			if seen[info] {
 				continue
 			}
@@ -184,7 +193,7 @@ func runOrderLaws(c *harness.Ctx) harness.Result {
 func TieProfile(r *rand.Rand) *profile.Profile {
 	o := gen.Opt{Types: [][2]string{{"samples", "count"}, {"v", "count"}}, Labels: true, NumLabels: true, Recursion: true, EmptyStacks: true, Unsym: true, NoMapping: true, Header: true,
 		ValueClass: 0, MaxSamples: 14, MinSamples: 3, MaxDepth: 5, MaxFuncs: 5, MaxLocs: 8, Columns: true, SameFile: r.Intn(2) == 0, IDMode: 1 + r.Intn(3),
-		LabelVals: []string{"a", "b"}, LabelKeys: []string{"k", "j"}, NumUnits: []string{"", "bytes"}}
+		LabelVals: []string{"a", "b", "A"}, LabelKeys: []string{"k", "j"}, NumUnits: []string{"", "bytes"}}
 	o.NameFn = func(r *rand.Rand) string { return []string{"f", "g", "h"}[r.Intn(3)] }
 	p := gen.Profile(r, o)
 	// diff shape: append negated copies of some samples with permuted order
@@ -344,6 +353,17 @@ func Digests(seed int64) (map[string]string, string) {
 			return nil, s.name + ": " + e
 		}
 		out[s.name] = fmt.Sprintf("%x", sha256.Sum256(b))
+	}
+	// the data behind the flame graph view (sources with their display attributes, stacks)
+	for _, gran := range [][]bool{{true, true, false, false, false, false}, {true, false, true, false, false, false}} {
+		q := p.Copy()
+		q.Aggregate(gran[0], gran[1], gran[2], gran[3], gran[4], gran[5])
+		rpt := report.NewDefault(q, report.Options{})
+		js, err := json.Marshal(rpt.Stacks())
+		if err != nil {
+			return nil, "stacks: " + err.Error()
+		}
+		out[fmt.Sprintf("flamegraph-data,%v", gran[1])] = fmt.Sprintf("%x", sha256.Sum256(js))
 	}
 	return out, ""
 }
@@ -707,7 +727,7 @@ func init() {
 	harness.Register(&harness.Check{
 		ID:          "C08",
 		Level:       "exploration",
-		Rule:        "part orderlaws: tie-rich element sets of 3..6 distinct elements (values in {0,+-1,+-2,+-5}, equal names at different addresses/files/binaries) - EVERY permutation (6..720) is sorted by SortTags (flat, cum) and Nodes.Sort (7 orders incl. entropy with random edges); EdgeMap.Sort is repeated 60x (its input order is a map); the result sequence must be unique (sort.Sort is an insertion sort at these sizes, so any pair the comparator leaves unordered yields two results). part e2e: tie-class profiles (values -2..2, +/- cancelling diff shapes, equal names in several files, duplicate label values, comments and header fields, twin locations at one address with different line information) x 32 format/option combinations (top, tree, peek, dot, dot+call_tree, callgrind(+call_tree), tags, traces, raw, proto (gunzipped), topproto, tagroot/tagleaf; with and without nodecount; list (source files absent: routine headers and per-file errors), disasm through a fake object tool whose instructions carry no line information; proto/raw under show_from, focus+hide, prune_from, tagfocus+taghide; proto/raw/top with -symbolize=local through the real symbolizer over a fake object tool that names every address) rendered 8x in one process (fresh map seeds each time) plus web /top /flamegraph /peek /source on two servers; all byte strings (report bytes plus the messages printed for the user, e.g. unit warnings) equal. part xproc: the same renderings in 3 fresh processes. part session: one command typed four times into a fresh interactive session with 1-2 other commands (succeeding and failing) in between, and in half of the gaps an option (source_path, trim_path, granularity, nodecount, sort, divide_by, focus, unit, ...) that is set, used by a report and put back to its default; half of the sessions run at a file-bearing granularity over file names that trim_path/source_path rewrite; a third of the sessions have such an excursion before the first repetition, whose answer is then compared with a second fresh session without it; all four answers equal. part bigdot: graphs of 130-260 callers reaching 1-3 destinations through 1-2 hubs, some also through rarely sampled functions that a node cutoff removes (residual edges whose redundancy is decided by a search over the destination's many ancestors), rendered as dot (nodecount 0, 400; call_tree) 10x each; bytes equal. part fetchorder: 2-6 sources differing in main binary and comments fetched through the gated fetcher under 4 forced completion orders x 6 formats; bytes must be equal. non-trivial = every case; distinct = element set / profile shape",
+		Rule:        "part orderlaws: tie-rich element sets of 3..6 distinct elements (values in {0,+-1,+-2,+-5}, equal names at different addresses/files/binaries) - EVERY permutation (6..720) is sorted by SortTags (flat, cum) and Nodes.Sort (7 orders incl. entropy with random edges); EdgeMap.Sort is repeated 60x (its input order is a map); the result sequence must be unique (sort.Sort is an insertion sort at these sizes, so any pair the comparator leaves unordered yields two results). part e2e: tie-class profiles (values -2..2, +/- cancelling diff shapes, equal names in several files, duplicate label values, comments and header fields, twin locations at one address with different line information) x 32 format/option combinations (top, tree, peek, dot, dot+call_tree, callgrind(+call_tree), tags, traces, raw, proto (gunzipped), topproto, tagroot/tagleaf; with and without nodecount; list (source files absent: routine headers and per-file errors), disasm through a fake object tool whose instructions carry no line information; proto/raw under show_from, focus+hide, prune_from, tagfocus+taghide; proto/raw/top with -symbolize=local through the real symbolizer over a fake object tool that names every address) rendered 8x in one process (fresh map seeds each time) plus web /top /flamegraph /peek /source on two servers; all byte strings (report bytes plus the messages printed for the user, e.g. unit warnings) equal. part xproc: the same renderings, and the data behind the flame graph view (Report.Stacks as JSON, colours included), in 3 fresh processes. part session: one command typed four times into a fresh interactive session with 1-2 other commands (succeeding and failing) in between, and in half of the gaps an option (source_path, trim_path, granularity, nodecount, sort, divide_by, focus, unit, ...) that is set, used by a report and put back to its default; half of the sessions run at a file-bearing granularity over file names that trim_path/source_path rewrite; a third of the sessions have such an excursion before the first repetition, whose answer is then compared with a second fresh session without it; all four answers equal. part bigdot: graphs of 130-260 callers reaching 1-3 destinations through 1-2 hubs, some also through rarely sampled functions that a node cutoff removes (residual edges whose redundancy is decided by a search over the destination's many ancestors), rendered as dot (nodecount 0, 400; call_tree) 10x each; bytes equal. part fetchorder: 2-6 sources differing in main binary and comments fetched through the gated fetcher under 4 forced completion orders x 6 formats; bytes must be equal. non-trivial = every case; distinct = element set / profile shape",
 		Assumptions: []string{"elements of one sort call have distinct identities (names of tags within a node, NodeInfo of nodes in a graph), as in pprof's own data structures", "schedule coverage = map-iteration seeds of repeated runs and fresh processes, plus forced fetch completion orders (more of them in C16)"},
 		Parts: []harness.Part{
 			{Name: "orderlaws", Quick: 3000, Thor: 100000, Run: runOrderLaws},
